@@ -45,6 +45,8 @@ Lemma cget_cdel c a a' : cget (cdel c a) a' = if caddr_eqb a a' then None else c
 Proof. apply (@get_del _ _ _ caddr_eqb_spec). Qed.
 Lemma sget_sput s k b k' : sget (sput s k b) k' = if skey_eqb k k' then Some b else sget s k'.
 Proof. apply (@get_put _ _ _ skey_eqb_spec). Qed.
+Lemma sget_sdel s k k' : sget (sdel s k) k' = if skey_eqb k k' then None else sget s k'.
+Proof. apply (@get_del _ _ _ skey_eqb_spec). Qed.
 Lemma wget_wput w p e p' : wget (wput w p e) p' = if beqb p p' then Some e else wget w p'.
 Proof. apply (@get_put _ _ _ beqb_spec). Qed.
 
@@ -146,16 +148,19 @@ Proof.
 Qed.
 
 (* ---- send: what changes, for every fault sequence ---------------------------------------------------------- *)
-Lemma send_local_changes g c l : forall st g' a,
-  sget (fst (send_local g c st l)) (g', a) <> sget st (g', a) -> g' = g /\ In a l.
+Lemma send_local_changes fdel g c l : forall st g' a,
+  sget (fst (send_local fdel g c st l)) (g', a) <> sget st (g', a) -> g' = g /\ In a l.
 Proof.
   induction l as [|a0 t IH]; intros st g' a H; cbn [send_local fst] in H; [congruence|].
-  destruct (cget c a0) as [b|] eqn:E; [|cbn [fst] in H; congruence].
-  destruct (skey_eqb_spec (g, a0) (g', a)) as [Heq|Hne].
-  - injection Heq as <- <-. split; [reflexivity|now left].
-  - assert (Hs : sget (sput st (g, a0) b) (g', a) = sget st (g', a)).
-    { rewrite sget_sput. destruct (skey_eqb_spec (g, a0) (g', a)); congruence. }
-    rewrite <- Hs in H. apply IH in H as [Hg Hi]. split; [exact Hg|now right].
+  destruct (cget c a0) as [b|] eqn:E.
+  - destruct (skey_eqb_spec (g, a0) (g', a)) as [Heq|Hne].
+    + injection Heq as <- <-. split; [reflexivity|now left].
+    + assert (Hs : sget (sput st (g, a0) b) (g', a) = sget st (g', a)).
+      { rewrite sget_sput. destruct (skey_eqb_spec (g, a0) (g', a)); congruence. }
+      rewrite <- Hs in H. apply IH in H as [Hg Hi]. split; [exact Hg|now right].
+  - cbn [fst] in H. destruct fdel; [|congruence]. rewrite sget_sdel in H.
+    destruct (skey_eqb_spec (g, a0) (g', a)) as [Heq|Hne]; [|congruence].
+    injection Heq as <- <-. split; [reflexivity|now left].
 Qed.
 
 Lemma upload1_changes g c st af g' a :
@@ -186,23 +191,50 @@ Qed.
 Fixpoint sendable (c : cache) (l : list caddr) : list caddr :=
   match l with [] => [] | a :: t => if chas c a then a :: sendable c t else [] end.
 
-Lemma send_local_get g c l : forall st g' a,
-  sget (fst (send_local g c st l)) (g', a) =
-  if N.eqb g g' && mem_addr a (sendable c l) then cget c a else sget st (g', a).
+(* the object a local send stops at *)
+Fixpoint first_missing (c : cache) (l : list caddr) : option caddr :=
+  match l with [] => None | a :: t => if chas c a then first_missing c t else Some a end.
+Definition is_first_missing (c : cache) (l : list caddr) (a : caddr) : bool :=
+  match first_missing c l with Some m => caddr_eqb m a | None => false end.
+
+Lemma first_missing_absent c l a : is_first_missing c l a = true -> chas c a = false.
 Proof.
-  induction l as [|a0 t IH]; intros st g' a; cbn [send_local sendable].
-  - cbn [fst mem_addr existsb]. now rewrite andb_false_r.
-  - unfold chas. destruct (cget c a0) as [b|] eqn:E.
-    + rewrite IH, sget_sput, mem_addr_cons. unfold skey_eqb; cbn [fst snd].
-      destruct (N.eqb g g'); cbn [andb]; [|reflexivity].
-      rewrite (caddr_eqb_sym a0 a).
-      destruct (caddr_eqb_spec a a0) as [->|Hn]; cbn [orb]; [|reflexivity].
-      rewrite E. now destruct (mem_addr a0 (sendable c t)).
-    + cbn [fst mem_addr existsb]. now rewrite andb_false_r.
+  unfold is_first_missing. induction l as [|a0 t IH]; cbn [first_missing]; [discriminate|].
+  destruct (chas c a0) eqn:E; [exact IH|]. intros H. apply caddr_eqb_eq in H. now subst.
 Qed.
 
-Lemma send_local_outcome g c l : forall st,
-  snd (send_local g c st l) = if forallb (chas c) l then Ok else Err.
+Lemma first_missing_none c l : forallb (chas c) l = true -> first_missing c l = None.
+Proof.
+  induction l as [|a t IH]; cbn [forallb first_missing]; [reflexivity|].
+  intros H; apply andb_true_iff in H as [Ha Ht]. rewrite Ha. exact (IH Ht).
+Qed.
+
+Lemma send_local_get fdel g c l : forall st g' a,
+  sget (fst (send_local fdel g c st l)) (g', a) =
+  if N.eqb g g' && mem_addr a (sendable c l) then cget c a
+  else if fdel && N.eqb g g' && is_first_missing c l a then None else sget st (g', a).
+Proof.
+  induction l as [|a0 t IH]; intros st g' a; cbn [send_local sendable].
+  - cbn [fst mem_addr existsb]. unfold is_first_missing; cbn [first_missing]. now rewrite !andb_false_r.
+  - unfold is_first_missing; cbn [first_missing]. fold (is_first_missing c t a).
+    destruct (cget c a0) as [b|] eqn:E.
+    + assert (Hh : chas c a0 = true) by (unfold chas; now rewrite E). rewrite Hh.
+      fold (is_first_missing c t a).
+      rewrite IH, sget_sput, mem_addr_cons. unfold skey_eqb; cbn [fst snd].
+      destruct (N.eqb g g'); cbn [andb]; [|now rewrite !andb_false_r].
+      rewrite (caddr_eqb_sym a0 a), !andb_true_r.
+      destruct (caddr_eqb_spec a a0) as [->|Hn]; cbn [orb]; [|reflexivity].
+      rewrite E. destruct (mem_addr a0 (sendable c t)); [reflexivity|].
+      destruct (is_first_missing c t a0) eqn:Em; [|now destruct fdel].
+      apply first_missing_absent in Em. congruence.
+    + assert (Hh : chas c a0 = false) by (unfold chas; now rewrite E). rewrite Hh.
+      cbn [fst mem_addr existsb]. rewrite andb_false_r.
+      destruct fdel; cbn [andb]; [|reflexivity].
+      rewrite sget_sdel. unfold skey_eqb; cbn [fst snd]. now destruct (N.eqb g g').
+Qed.
+
+Lemma send_local_outcome fdel g c l : forall st,
+  snd (send_local fdel g c st l) = if forallb (chas c) l then Ok else Err.
 Proof.
   induction l as [|a0 t IH]; intros st; cbn [send_local forallb]; [reflexivity|].
   unfold chas at 1. destruct (cget c a0); cbn [andb]; [apply IH|reflexivity].
@@ -228,21 +260,34 @@ Qed.
 Definition sent_set (k : skind) (c : cache) (l : list caddr) : list caddr :=
   match k with Local => sendable c l | Generic => filter (chas c) l end.
 
-Lemma send_ok_get k r st ts fs g' a : all_ok fs = true ->
-  sget (fst (send k r st ts fs)) (g', a) =
-  if N.eqb (r_guid r) g' && mem_addr a (sent_set k (r_cache r) (addrs r ts)) then cget (r_cache r) a else sget st (g', a).
+(* the key a forced local send removes without replacing it (unrepaired tree) *)
+Definition lost (cf : cfg) (k : skind) (force : bool) (c : cache) (l : list caddr) (g g' : guid) (a : caddr) : bool :=
+  match k with
+  | Local => (force && negb (fixed_send_force cf)) && N.eqb g g' && is_first_missing c l a
+  | Generic => false
+  end.
+
+Lemma send_ok_get cf k r st ts force fs g' a : all_ok fs = true ->
+  sget (fst (send cf k r st ts force fs)) (g', a) =
+  if N.eqb (r_guid r) g' && mem_addr a (sent_set k (r_cache r) (addrs r ts)) then cget (r_cache r) a
+  else if lost cf k force (r_cache r) (addrs r ts) (r_guid r) g' a then None else sget st (g', a).
 Proof.
-  intros H. destruct k; cbn [send sent_set].
+  intros H. destruct k; cbn [send sent_set lost].
   - apply send_local_get.
   - unfold send_generic; cbn [fst]. rewrite (zipf_all_ok _ _ H). apply fold_upload_ok_get.
 Qed.
 
-Lemma send_ok_outcome k r st st' ts fs fs' : all_ok fs = true -> all_ok fs' = true ->
-  snd (send k r st ts fs) = snd (send k r st' ts fs').
+Lemma send_ok_outcome cf k r st st' ts force fs fs' : all_ok fs = true -> all_ok fs' = true ->
+  snd (send cf k r st ts force fs) = snd (send cf k r st' ts force fs').
 Proof.
   intros H H'. destruct k; cbn [send].
   - now rewrite !send_local_outcome.
   - unfold send_generic; cbn [snd]. now rewrite (zipf_all_ok _ _ H), (zipf_all_ok _ _ H').
+Qed.
+
+Lemma lost_none cf k force c l g g' a : forallb (chas c) l = true -> lost cf k force c l g g' a = false.
+Proof.
+  intros H. unfold lost, is_first_missing. rewrite (first_missing_none c l H). destruct k; [now rewrite andb_false_r|reflexivity].
 Qed.
 
 Lemma sendable_all c l : forallb (chas c) l = true -> sendable c l = l.
@@ -284,20 +329,52 @@ Proof.
   apply upload1_sound; [exact Ha|exact Hs|apply Hf; now left].
 Qed.
 
-Lemma send_sound truth k r st ts fs :
+Lemma send_sound truth cf k r st ts force fs :
   agrees truth (r_cache r) -> storage_sound truth (r_guid r) st -> no_partial fs = true ->
-  storage_sound truth (r_guid r) (fst (send k r st ts fs)).
+  storage_sound truth (r_guid r) (fst (send cf k r st ts force fs)).
 Proof.
   intros Ha Hs Hf. destruct k; cbn [send].
   - intros a b. rewrite send_local_get.
-    destruct (N.eqb (r_guid r) (r_guid r) && mem_addr a (sendable (r_cache r) (addrs r ts))); [apply Ha|apply Hs].
+    destruct (N.eqb (r_guid r) (r_guid r) && mem_addr a (sendable (r_cache r) (addrs r ts))); [apply Ha|].
+    destruct (force && negb (fixed_send_force cf) && N.eqb (r_guid r) (r_guid r) && is_first_missing (r_cache r) (addrs r ts) a);
+      [discriminate|apply Hs].
   - unfold send_generic; cbn [fst]. apply fold_upload_sound; [exact Ha|exact Hs|].
     intros af Hi. eapply zipf_no_partial; eauto.
 Qed.
 
+(* a send never removes a stored object -- unless it is a forced local send of the unrepaired tree *)
+Lemma send_local_present g c l : forall st key b,
+  sget st key = Some b -> exists b', sget (fst (send_local false g c st l)) key = Some b'.
+Proof.
+  induction l as [|a0 t IH]; intros st key b H; cbn [send_local]; [now exists b|].
+  destruct (cget c a0) as [b0|]; [|now exists b].
+  destruct (skey_eqb_spec (g, a0) key) as [<-|Hn].
+  - apply (IH _ _ b0). rewrite sget_sput. now destruct (skey_eqb_spec (g, a0) (g, a0)).
+  - apply (IH _ _ b). rewrite sget_sput. destruct (skey_eqb_spec (g, a0) key); [contradiction|exact H].
+Qed.
+
+Lemma fold_upload_present g c z : forall st key b,
+  sget st key = Some b -> exists b', sget (fold_left (upload1 g c) z st) key = Some b'.
+Proof.
+  induction z as [|af t IH]; intros st key b H; cbn [fold_left]; [now exists b|].
+  assert (Hp : exists b1, sget (upload1 g c st af) key = Some b1).
+  { unfold upload1. destruct (snd af), (cget c (fst af)); try (now exists b);
+      rewrite sget_sput; destruct (skey_eqb (g, fst af) key); eauto. }
+  destruct Hp as [b1 H1]. now apply (IH _ _ b1).
+Qed.
+
+Lemma send_present cf k r st ts force fs key b :
+  force && negb (fixed_send_force cf) = false \/ k = Generic ->
+  sget st key = Some b -> exists b', sget (fst (send cf k r st ts force fs)) key = Some b'.
+Proof.
+  intros Hc H. destruct k; cbn [send].
+  - destruct Hc as [->|Hc]; [|discriminate]. now apply send_local_present with b.
+  - unfold send_generic; cbn [fst]. now apply fold_upload_present with b.
+Qed.
+
 (* ---- the layout of the storage ------------------------------------------------------------------------------ *)
-Lemma send_changes k r st ts fs g' a :
-  sget (fst (send k r st ts fs)) (g', a) <> sget st (g', a) -> g' = r_guid r /\ In a (addrs r ts).
+Lemma send_changes cf k r st ts force fs g' a :
+  sget (fst (send cf k r st ts force fs)) (g', a) <> sget st (g', a) -> g' = r_guid r /\ In a (addrs r ts).
 Proof.
   destruct k; cbn [send].
   - apply send_local_changes.
@@ -629,25 +706,25 @@ Proof.
   destruct force, (fixed_P10 cf); rewrite ?Hf, ?mem_dedup; reflexivity.
 Qed.
 
-Lemma roundtrip cf k1 k2 tmp r0 st T f1 clone T' force f2 :
+Lemma roundtrip cf k1 k2 tmp r0 st T fsend f1 clone T' force f2 :
   all_ok f1 = true -> all_ok f2 = true -> tmp || fixed_P9 cf = true ->
   (forall p, In p T -> exists b, committed r0 p = Some b) ->
   incl T' T ->
   r_guid clone = r_guid r0 -> r_recs clone = r_recs r0 -> r_cache clone = [] ->
   (force = true \/ forall p, In p T' -> ws_unmodified r0 clone p) ->
-  snd (bring cf k2 tmp clone (fst (send k1 r0 st T f1)) T' force f2) <> Panic /\
+  snd (bring cf k2 tmp clone (fst (send cf k1 r0 st T fsend f1)) T' force f2) <> Panic /\
   forall p, In p T' ->
-    ws_read (fst (bring cf k2 tmp clone (fst (send k1 r0 st T f1)) T' force f2)) p = committed r0 p.
+    ws_read (fst (bring cf k2 tmp clone (fst (send cf k1 r0 st T fsend f1)) T' force f2)) p = committed r0 p.
 Proof.
   intros Hf1 Hf2 Hcan Hcom Hincl Hg Hrecs Hempty Hws.
-  set (st1 := fst (send k1 r0 st T f1)).
+  set (st1 := fst (send cf k1 r0 st T fsend f1)).
   (* everything sent is in the storage, under the guid of the origin, with the bytes of its cache *)
   assert (Hall : forallb (chas (r_cache r0)) (addrs r0 T) = true).
   { apply forallb_forall. intros a Ha. apply addrs_In in Ha as [p [x [Hp [Hx ->]]]].
     destruct (Hcom p Hp) as [b Hb]. apply committed_inv in Hb as [x' [Hx' Hb]].
     rewrite Hx in Hx'. injection Hx' as <-. apply chas_true. now exists b. }
   assert (Hsent : forall a, In a (addrs r0 T) -> sget st1 (r_guid r0, a) = cget (r_cache r0) a).
-  { intros a Ha. unfold st1. rewrite (send_ok_get k1 r0 st T f1 (r_guid r0) a Hf1), N.eqb_refl.
+  { intros a Ha. unfold st1. rewrite (send_ok_get cf k1 r0 st T fsend f1 (r_guid r0) a Hf1), N.eqb_refl.
     replace (sent_set k1 (r_cache r0) (addrs r0 T)) with (addrs r0 T).
     - apply mem_addr_In in Ha. now rewrite Ha.
     - destruct k1; cbn [sent_set]; [now rewrite sendable_all|now rewrite filter_all]. }
@@ -683,12 +760,14 @@ Proof.
 Qed.
 
 (* ---- idempotence -------------------------------------------------------------------------------------------------------------- *)
-Lemma send_idem k r st ts fs1 fs2 key :
+Lemma send_idem cf k r st ts force fs1 fs2 key :
   all_ok fs1 = true -> all_ok fs2 = true ->
-  sget (fst (send k r (fst (send k r st ts fs1)) ts fs2)) key = sget (fst (send k r st ts fs1)) key.
+  sget (fst (send cf k r (fst (send cf k r st ts force fs1)) ts force fs2)) key = sget (fst (send cf k r st ts force fs1)) key.
 Proof.
-  intros H1 H2. destruct key as [g' a]. rewrite (send_ok_get k r _ ts fs2 g' a H2), (send_ok_get k r st ts fs1 g' a H1).
-  now destruct (N.eqb (r_guid r) g' && mem_addr a (sent_set k (r_cache r) (addrs r ts))).
+  intros H1 H2. destruct key as [g' a].
+  rewrite (send_ok_get cf k r _ ts force fs2 g' a H2), (send_ok_get cf k r st ts force fs1 g' a H1).
+  destruct (N.eqb (r_guid r) g' && mem_addr a (sent_set k (r_cache r) (addrs r ts))); [reflexivity|].
+  now destruct (lost cf k force (r_cache r) (addrs r ts) (r_guid r) g' a).
 Qed.
 
 Lemma mem_filter_addr f a l : mem_addr a (filter f l) = mem_addr a l && f a.
@@ -770,9 +849,10 @@ Lemma bring_sound truth cf k tmp r st ts force fs :
   agrees truth (r_cache (fst (bring cf k tmp r st ts force fs))).
 Proof. intros. rewrite bring_cache. now apply fetch_sound. Qed.
 
-Lemma send_other_guid k r st ts fs g' a : g' <> r_guid r -> sget (fst (send k r st ts fs)) (g', a) = sget st (g', a).
+Lemma send_other_guid cf k r st ts force fs g' a :
+  g' <> r_guid r -> sget (fst (send cf k r st ts force fs)) (g', a) = sget st (g', a).
 Proof.
-  intros Hn. destruct (option_eq_dec_bytes (sget (fst (send k r st ts fs)) (g', a)) (sget st (g', a))) as [H|H]; [exact H|].
+  intros Hn. destruct (option_eq_dec_bytes (sget (fst (send cf k r st ts force fs)) (g', a)) (sget st (g', a))) as [H|H]; [exact H|].
   apply send_changes in H as [Hg _]. congruence.
 Qed.
 
@@ -780,7 +860,7 @@ Qed.
 Definition transfer_step (s : step) : bool :=
   match s with
   | SNew _ _ _ | STrack _ _ _ _ => false
-  | SSend _ _ _ fs => no_partial fs
+  | SSend _ _ _ _ fs => no_partial fs
   | _ => true
   end.
 (* truth g = the objects committed by the repositories with guid g *)
@@ -812,9 +892,9 @@ Proof.
   - (* user write *) destruct (wrepo w i) as [r|] eqn:E; [|exact Hw]. cbn [fst].
     apply world_sound_set; [exact Hw|]. cbn [set_ws r_cache r_guid]. now apply Hr with i.
   - (* send *) destruct (wrepo w i) as [r|] eqn:E; [|exact Hw].
-    pose proof (send_sound (truth (r_guid r)) k r (stor w) ts fs (Hr i r E) (Hs (r_guid r)) Ht) as Hsnd.
-    pose proof (fun g' a => send_other_guid k r (stor w) ts fs g' a) as Hoth.
-    destruct (send k r (stor w) ts fs) as [st o]. cbn [fst] in *. split; [exact Hr|]. cbn [stor].
+    pose proof (send_sound (truth (r_guid r)) cf k r (stor w) ts force fs (Hr i r E) (Hs (r_guid r)) Ht) as Hsnd.
+    pose proof (fun g' a => send_other_guid cf k r (stor w) ts force fs g' a) as Hoth.
+    destruct (send cf k r (stor w) ts force fs) as [st o]. cbn [fst] in *. split; [exact Hr|]. cbn [stor].
     intros g. destruct (N.eq_dec g (r_guid r)) as [->|Hn]; [exact Hsnd|].
     intros a b. rewrite (Hoth g a Hn). apply Hs.
   - (* bring *) destruct (wrepo w i) as [r|] eqn:E; [|exact Hw].
@@ -867,32 +947,32 @@ Proof. intros H. unfold bring, fetch. rewrite H. reflexivity. Qed.
 (* ---- layout ------------------------------------------------------------------------------------------------------------------------ *)
 (* whatever fails: a send only writes keys <guid of the sending repository>/<cache address of the current
    digest of one of its file targets> *)
-Lemma send_layout k r st ts fs g' a :
-  sget (fst (send k r st ts fs)) (g', a) <> sget st (g', a) ->
+Lemma send_layout cf k r st ts force fs g' a :
+  sget (fst (send cf k r st ts force fs)) (g', a) <> sget st (g', a) ->
   g' = r_guid r /\ exists p x, In p ts /\ rget r p = Some x /\ a = cache_addr p (r_digest x).
 Proof. intros H. apply send_changes in H as [Hg Ha]. split; [exact Hg|]. now apply addrs_In. Qed.
 
 (* repositories with distinct guids sharing a storage: what one sends (whatever fails) changes no object of
    the other and no outcome of the other's brings *)
-Lemma no_collision cf k1 k2 tmp r1 r2 st ts1 ts2 force fs1 fs2 :
+Lemma no_collision cf k1 k2 tmp r1 r2 st ts1 ts2 force fsend fs1 fs2 :
   r_guid r1 <> r_guid r2 ->
-  (forall a, sget (fst (send k2 r2 st ts2 fs2)) (r_guid r1, a) = sget st (r_guid r1, a)) /\
-  bring cf k1 tmp r1 (fst (send k2 r2 st ts2 fs2)) ts1 force fs1 = bring cf k1 tmp r1 st ts1 force fs1.
+  (forall a, sget (fst (send cf k2 r2 st ts2 fsend fs2)) (r_guid r1, a) = sget st (r_guid r1, a)) /\
+  bring cf k1 tmp r1 (fst (send cf k2 r2 st ts2 fsend fs2)) ts1 force fs1 = bring cf k1 tmp r1 st ts1 force fs1.
 Proof.
   intros Hn.
-  assert (H : forall a, sget (fst (send k2 r2 st ts2 fs2)) (r_guid r1, a) = sget st (r_guid r1, a))
+  assert (H : forall a, sget (fst (send cf k2 r2 st ts2 fsend fs2)) (r_guid r1, a) = sget st (r_guid r1, a))
     by (intros a; now apply send_other_guid).
   split; [exact H|]. now apply bring_ext.
 Qed.
 
 (* a successful send puts every target whose object the sender has at <guid>/<address>, with its bytes *)
-Lemma send_ok_stores k r st ts fs p b :
+Lemma send_ok_stores cf k r st ts force fs p b :
   all_ok fs = true -> (forall q, In q ts -> exists c, committed r q = Some c) -> In p ts -> committed r p = Some b ->
-  exists a, addr_of r p = Some a /\ sget (fst (send k r st ts fs)) (r_guid r, a) = Some b.
+  exists a, addr_of r p = Some a /\ sget (fst (send cf k r st ts force fs)) (r_guid r, a) = Some b.
 Proof.
   intros Hok Hall Hp Hb. destruct (committed_inv r p b Hb) as [x [Hx Hob]].
   exists (cache_addr p (r_digest x)). split; [unfold addr_of; now rewrite Hx|].
-  rewrite (send_ok_get k r st ts fs _ _ Hok), N.eqb_refl.
+  rewrite (send_ok_get cf k r st ts force fs _ _ Hok), N.eqb_refl.
   assert (Hf : forallb (chas (r_cache r)) (addrs r ts) = true).
   { apply forallb_forall. intros a Ha. apply addrs_In in Ha as [q [y [Hq [Hy ->]]]].
     destruct (Hall q Hq) as [c Hc]. apply committed_inv in Hc as [y' [Hy' Hc]].
